@@ -852,7 +852,12 @@ def judge_e2e(ctx: Ctx, suite: str, case: Dict[str, Any], parents: Sequence[Opti
             if o15_only(order):
                 cls = "same-ordered-pair-same-jointype-different-index"
             elif via == "feature":
-                cls = "links-attached-to-features-not-validated"
+                # narrow: links attached to features skip LinkValidator (known), BUT when two links of different join type for one
+                # ordered pair were both attached to the consumer's parents the planner's own resolve-time check
+                # (validate_no_conflicting_join_types) must reject the request - two planned JoinSteps for such a pair are not excused
+                planned = set(res.get("joins") or [])
+                conflict_planned = any(pat == "join-type-conflict" and canon.get(a, a) in planned and canon.get(b, b) in planned for pat, a, b in contra)
+                cls = None if conflict_planned else "links-attached-to-features-not-validated"
             ctx.violation(suite, case, f"contradictory link set {contra[0]} was not rejected before execution (prepare ok, joins {res.get('joins')}, run {res.get('run')})", res, "rejected at prepare", finding_class=cls)
         elif res.get("events_before_reject", 0) != 0:
             ctx.violation(suite, case, "feature groups were executed before the contradictory link set was rejected", res, "no execution")
